@@ -39,8 +39,10 @@ class PolicyTap:
         def dec_forward(td, *a, **kw):
             out = self._dec_forward(td, *a, **kw)
             rec.hits["decoder"] += 1
-            if keep:
+            if keep and isinstance(out, tuple) and len(out) >= 2 and isinstance(out[0], torch.Tensor):
                 logits, mask = out[0], out[1]
+                if not isinstance(mask, torch.Tensor):
+                    mask = None
                 rec.steps.append(dict(logits=logits.detach().clone(), mask=None if mask is None else mask.clone(), done=td["done"].clone() if "done" in td.keys() else None))
             return out
 
